@@ -134,16 +134,21 @@ PROPS = {
     'C13': dict(
         units=['arith'],
         deps=[('builder', 'C04')],
-        witness=None,
+        witness=['c13', '--max', '4', '--per', '40'],
+        witness_thorough=['c13', '--max', '7', '--per', '400'],
         level='proof',
         technique='Verus contracts on the real compare-exchange layer (push_gt_circuit, push_condswap, push_eq_circuit)',
         claim='Unbounded deductive proof (Verus/Z3) of the compare-exchange layer used by join: push_gt_circuit returns exactly the unsigned '
               'comparison of the first `bits` wires for every width; push_condswap swaps exactly when the selector is true; '
-              'push_eq_circuit is exact equality. The bitonic network topology (push_sorter / push_bitonic_merger / push_bitonic_sorter) and '
-              'compile_bitonic_merge (padding, tag bit, duplicate guard) are NOT under contract; a change there is not detected by this check.',
+              'push_eq_circuit is exact equality; push_sorter is a whole-element compare-exchange on the first `bits` wires. The bitonic network '
+              'topology (push_bitonic_merger / push_bitonic_sorter) and compile_bitonic_merge (padding, tag bit, duplicate guard) are NOT under '
+              'contract: a bounded differential through compile + eval runs for-join loops and the join built-in for every size pair up to (4,4) '
+              '(thorough (7,7)) on sorted key arrays (random keys incl. 0 and 255, identical and disjoint sets, one key repeated within one array) '
+              'against a reference merge join (body once per common key with the matching payloads; flagged entries exactly the common keys, zero '
+              'elsewhere, flags sorted).',
         note='Trusted: as C04. Unverified: network topology and everything in compile_bitonic_merge / the join built-in.',
         title='join: compare-exchange layer (gt / condswap / eq) exact for every width; network topology unverified',
-        unverified=['push_sorter, push_bitonic_merger, push_bitonic_sorter', 'compile_bitonic_merge, JoinLoop lowering, join built-in'],
+        unverified=['push_bitonic_merger, push_bitonic_sorter (network topology)', 'compile_bitonic_merge, JoinLoop lowering, join built-in: bounded differential only'],
     ),
     'C17': dict(
         units=['typing'],
@@ -166,7 +171,7 @@ PROPS = {
     ),
     'C09': dict(
         units=[],
-        deps=[],
+        deps=[('typing', 'C17')],
         kani=[
             dict(name='c09_signed_to_bits_layout', fn='compile::signed_to_bits', label='complete-over-i64-x-sizes',
                  bound='all i64 values x all sizes 0..=64; loops fully unrolled (unwinding assertions on)'),
